@@ -59,8 +59,9 @@ def C15_Statement : Prop :=
       (Spec.DiskBasic.freeGranules img < needs f ∨ Spec.DiskBasic.freeSlots img = 0 →
          Dsk.addFile order img f = .diag)
 
-/-- ASCII files whose last-granule marker says "0 sectors" are read wrongly by the tool
-(calculate_file_length goes negative); such images are never written by the tool. Exclusion of C07 (b). -/
+/-- ASCII files whose last-granule marker says "0 sectors". They used to be read wrongly by the tool
+(calculate_file_length went negative) and were the exclusion of C07 (b); repaired (C07_full, C07_finding_zeroSector_fixed).
+Such images are never written by the tool. -/
 def K_C07_zeroSectorAscii (img : Bytes) : Bool :=
   (Spec.DiskBasic.liveSlots img).any (fun k =>
     let e := Spec.DiskBasic.dirEntry img k
